@@ -368,33 +368,11 @@ def run(rep, sub=False):
                       f'the visited set {a[1]} is created outside the loop over entry points: a helper reached first from one stage is skipped for the next entry point, so its globals miss that stage',
                       ok_detail=f'{a[1]} created inside the entry-point loop')
     # ---- 4. lookup wiring ---------------------------------------------------------------------------------------------------
-    hits = find_entry_template(ogp)
-    rep.floor('layout-entry template (visibility hole)', len(hits), 1)
-    for q, tmpl in hits[:1]:
-        f = crate.fns[q]
-        where_t = f"{crate.relfile(f['file'])} fn {f['name']} (template at {tmpl[1]})"
-        vis = hole_after(tmpl, 'visibility :')
-        bnd = hole_after(tmpl, 'binding :')
-        if not vis or vis[0] != 'hole' or not bnd or bnd[0] != 'hole':
-            rep.bad('C03.4.visibility-hole', 'visibility-hole', where_t, '`visibility:` / `binding:` are not interpolated holes', undecided=True)
-            continue
-        # the binding element: base of the binding index term
-        idx_leaf = []
-        E.walk(bnd[2], lambda x: idx_leaf.append(x) if x[0] == 'f' and x[2] == 'binding_index' else None)
-        arg = stages_argument(vis[2])
-        if arg is None or not idx_leaf:
-            rep.bad('C03.4.visibility-hole', 'visibility-arg', where_t, 'cannot identify the stage set that is printed into `visibility:`', undecided=True)
-            continue
-        binding = idx_leaf[0][1]
-        mi = param_index(f, is_map)
-        mapP = ('param', q, f['params'][mi]['pat'].get('name')) if mi is not None else None
-        want_get = ('mcall', mapP, 'get', [('unwrap', ('f', binding, 'name'))])
-        ok = arg[0] == 'alt' and len(arg[1]) == 2 and arg[1][1] == (TRUE, ('path', 'wgpu::ShaderStages::NONE')) and \
-            mentions(arg[1][0][1], want_get) and not other_sources(arg[1][0][1], want_get)
-        rep.check(ok, 'C03.4.visibility-lookup', 'visibility-lookup', where_t,
-                  f'`visibility:` is not exactly stages.get(name of this binding) with fallback NONE (found {E.show(arg, maxdepth=7)}): unused stages are added or used ones dropped',
-                  ok_detail='visibility = quote_shader_stages(global_stages.get(binding.name) or NONE)')
-    # the map handed to the bind-group code is the driver's result
+    # judged on the assembled grammar of the top-level function, where every helper is inlined: the stage set printed into `visibility:` of
+    # a layout entry is evaluated for the four cases (binding has a name?, map has an entry?) and must be map[name] / NONE; the map must be
+    # the one created and filled by the stage walk
+    import engine_skel as K
+    from conc import Flags
     tops = [q for q in ogp.summaries if any(c[0] == q and c[1] in drivers for c in ogp.it.inline_calls)]
     n_wire = 0
     for tq in tops:
@@ -402,16 +380,52 @@ def run(rep, sub=False):
         ts = E.find_templates(top, lambda t: 'wgpu :: BindGroupLayoutEntry {' in E.tmpl_text(t))
         if not ts:
             continue
-        vis = hole_after(ts[0], 'visibility :')
-        arg = stages_argument(vis[2]) if vis else None
-        gets = []
-        if arg is not None:
-            E.walk(arg, lambda x: gets.append(x) if x[0] == 'mcall' and x[2] == 'get' else None)
-        ok = bool(gets) and all(g[1][0] == 'new' and g[1][1] in ('BTreeMap', 'HashMap') and g[1][3] == () for g in gets)
         n_wire += 1
-        rep.check(ok, 'C03.4.map-wiring', f'map-wiring:{tq}', fwhere(tq),
-                  f'the stage map consulted for `visibility:` is not the map computed by the stage walk ({[E.show(g[1], maxdepth=3) for g in gets][:2]})',
-                  ok_detail='layout entries consult the map returned by the stage walk')
+        tmpl = ts[0]
+        where_t = f"{fwhere(tq)} -> layout entry template {tmpl[1]}"
+        vis = hole_after(tmpl, 'visibility :')
+        bnd = hole_after(tmpl, 'binding :')
+        if not vis or vis[0] != 'hole' or not bnd or bnd[0] != 'hole':
+            rep.bad('C03.4.visibility-hole', 'visibility-hole', where_t, '`visibility:` / `binding:` are not interpolated holes', undecided=True)
+            continue
+        idx_leaf = []
+        E.walk(bnd[2], lambda x: idx_leaf.append(x) if x[0] == 'f' and x[2] == 'binding_index' else None)
+        arg = stages_argument(vis[2])
+        if arg is None or not idx_leaf:
+            rep.bad('C03.4.visibility-hole', 'visibility-arg', where_t, 'cannot identify the stage set that is printed into `visibility:`', undecided=True)
+            continue
+        binding = idx_leaf[0][1]
+        nameT = ('f', binding, 'name')
+        gets = []
+        E.walk(arg, lambda x: gets.append(x) if x[0] == 'mcall' and x[2] == 'get' and not any(x == g for g in gets) else None)
+        ok_map = len(gets) == 1 and gets[0][1][0] == 'new' and gets[0][1][1] in ('BTreeMap', 'HashMap') and gets[0][1][3] == () and gets[0][3] == [('unwrap', nameT)]
+        rep.check(ok_map, 'C03.4.map-wiring', f'map-wiring:{tq}', where_t,
+                  f'the stage set of a layout entry is not looked up in the map computed by the stage walk under the name of the same binding ({[E.show(g, maxdepth=5) for g in gets][:2]})',
+                  ok_detail='layout entries consult the stage-walk map under binding.name')
+        X = Flags('wgpu::ShaderStages', ['FRAGMENT'])
+        NONE = Flags('wgpu::ShaderStages', [])
+        ok_lookup = ok_map
+        detail = ''
+        for has_name in (True, False):
+            for has_entry in (True, False):
+                def leaf(t, has_name=has_name, has_entry=has_entry):
+                    if t == nameT:
+                        return (('some', 'v') if has_name else None,)
+                    if gets and t == gets[0]:
+                        return (('some', X) if has_entry else None,)
+                    return None
+                ev = K.SkelEval(ogp, None, {}, '', None, extra_leaf=leaf)
+                try:
+                    got = ev.norm_flags(ev.ev(arg))
+                except (Diverge, Unbound) as ex:
+                    got = f'<{ex}>'
+                want = X if (has_name and has_entry) else NONE
+                if got != want:
+                    ok_lookup = False
+                    detail = f'name present={has_name}, map entry present={has_entry}: {got}, expected {want}'
+        rep.check(ok_lookup, 'C03.4.visibility-lookup', 'visibility-lookup', where_t,
+                  f'`visibility:` is not exactly the map entry of this binding with fallback NONE ({detail or E.show(arg, maxdepth=6)}): unused stages are added or used ones dropped',
+                  ok_detail='visibility = quote_shader_stages(global_stages.get(binding.name) or NONE)')
     rep.floor('top-level function wiring the stage map into the layout entries', n_wire, 1)
     if not sub:
         # the stage set of the push-constant range is part of this property's statement; its wiring is decided by C13's rules
